@@ -31,7 +31,8 @@
 //!    (y >= p) of large-order points and mixed-order points are counted;
 //!    ed25519 verifying keys of the dlog proof and the gamma point of a VRF
 //!    proof have no documented small-order check: counted only.
-//!  * panics are reported as inconclusive.
+//!  * a panic where the construction history says *accept* is a false reject;
+//!    where it says reject it is counted (`note.verifier_panic.*`), no totality demanded.
 #![allow(deprecated)]
 use crate::common::*;
 use concordium_base::{
@@ -68,7 +69,7 @@ impl J<'_> {
         if self.replaying {
             println!("  {} expected={} got={:?}", what, expected, got);
         }
-        let mismatch = matches!(&got, Ok(b) if *b != expected);
+        let mismatch = matches!(&got, Ok(b) if *b != expected) || (expected && got.is_err());
         let want_sample = !self.sampled && self.sh.samples.len() < 3;
         let c = if mismatch || want_sample { case() } else { Value::Null };
         if want_sample {
@@ -82,11 +83,12 @@ impl J<'_> {
                 let sig = format!("c19:{}:{}:{:016x}", what, kind, vmon_core::fnv(c.to_string().as_bytes()));
                 self.sh.violate(self.idx, kind, sig, format!("{}: library returned {} but the construction history says {}", what, b, expected), c);
             }
-            Err(m) => {
-                if self.sh.inconclusive.len() < 5 {
-                    self.sh.inconclusive.push(format!("{} panicked: {}", what, m));
-                }
+            Err(m) if expected => {
+                // the construction history promises acceptance; a panic is not an acceptance
+                let sig = format!("c19:{}:false-reject-by-panic:{:016x}", what, vmon_core::fnv(c.to_string().as_bytes()));
+                self.sh.violate(self.idx, "false-reject", sig, format!("{}: library panicked ({}) but the construction history says accept", what, m), c);
             }
+            Err(_) => self.sh.hit("note.verifier_panic.on_expected_reject"),
         }
     }
 
